@@ -294,7 +294,7 @@ Qed.
 
 Definition upd_opt (f : frame) (ca : argdef) (takes add : bool) (v : aval) : frame :=
   let f1 := if takes then set_curarg f (Some ca) else f in
-  if add then set_arg f1 (a_name ca) v else f1.
+  if add then del_extra (set_arg f1 (a_name ca) v) (a_name ca) else f1.
 
 Lemma fi_upd_opt : forall f ca takes add t v,
   fi f -> In ca (d_args (f_def f)) -> a_required ca = false ->
